@@ -24,8 +24,8 @@ import stdbuild, stdtrace, stdinputs
 
 META = {
     "level": "exploration",
-    "technique": "trace validation by TLC: per-call events of the sanitizer-instrumented generated C (corpus + seeded mutants x IOSchedule.tla buffer schedules) checked against the I/O contract clauses of IOClauses.tla via Trace_Std.tla; closed contract model IOContract.tla model-checked",
-    "text": "Every public call the driver makes on every std decoder/hasher is logged and validated by TLC against the I/O contract (index order, monotone ri/wi, source and written destination bytes unchanged, legal status class, no internal error, justified short read/short write, no allocation) while ASan+UBSan watch the same executions and a CPU-time watchdog (confirmed with a 4x budget) bounds each job. Memory safety of 60k lines of codec is observed, not proved: exploration.",
+    "technique": "trace validation by TLC: per-call events of the sanitizer-instrumented generated C (corpus + seeded mutants + every prefix with a late close x IOSchedule.tla buffer schedules) checked against the I/O contract clauses of IOClauses.tla via Trace_Std.tla; a second, 'checked' build of std (hook H3) asserts the compiler's own derived range of every index, slice bound, arithmetic result and conversion at run time and TLC evaluates ClaimedRangesHold on every call; closed contract model IOContract.tla model-checked",
+    "text": "Every public call the driver makes on every std decoder/hasher is logged and validated by TLC against the I/O contract (index order, monotone ri/wi, source and written destination bytes unchanged, legal status class, no internal error, justified short read/short write, no allocation) while ASan+UBSan watch the same executions and a CPU-time watchdog (confirmed with a 4x budget) bounds each job; the checked build (14 000 assertion sites in std, the checker's MBounds) runs the one-shot jobs and a sample of the chunked ones (thorough: all). Memory safety of 60k lines of codec is observed, not proved: exploration.",
     "note": "Trusted: gcc's sanitizers, the driver harness/c/stddrive.c (hashes/memcmp, schedule unfolding checked against IOSchedule.tla), TLC. Inputs are the repository corpus plus seeded mutations; schedules are the IOSchedule classes; only executions actually run are covered.",
 }
 
@@ -155,6 +155,43 @@ def run(ctx):
                 j2["id"] = jid
                 meta[jid] = meta[jid - 1]
                 jobs_asan.append(j2)
+    # systematic: EVERY prefix of the smallest corpus file(s) of each decoder, delivered whole or byte by byte, with the
+    # source closed only by a LATER call that brings no new bytes (close=late).  A decoder that keeps bits or bytes
+    # buffered across a "$short read" meets the end of the input in every such buffered state (std/lzw reported an
+    # internal error there: it tried to undo a byte an earlier call had read).
+    late = [c for c in classes if c["close"] == "late"]
+    base_late = dict(late[0] if late else oneshot[0], close="late", dst=[-1], dstmode="grow", init=0, prefill=165, srcmode="view")
+    bydec = {}
+    for (p, dec, extra, origin) in inputs:
+        if origin == "corpus" and stdinputs.KIND.get(dec) != "hasher":
+            bydec.setdefault(dec, []).append((os.path.getsize(p), p, extra))
+    tdir = ctx.subdir("prefixes")
+    nprefix = 0
+    for dec, lst in sorted(bydec.items()):
+        lst.sort()
+        for (n, p, extra) in lst[: (3 if thorough else 1)]:
+            data = open(p, "rb").read()
+            n = min(n, 4096 if thorough else 1500)      # (prefixes of a large file are as good as those of a small one)
+            skip = int(extra.get("skip", 0))
+            lens = list(range(skip, n)) if (thorough or n <= 96) else sorted(set(list(range(skip, min(n, skip + 64))) + rng.sample(range(skip, n), 32)))
+            for L in lens:
+                tp = os.path.join(tdir, "%s.%s.prefix%d" % (dec, os.path.basename(p), L))
+                with open(tp, "wb") as f:
+                    f.write(data[:L])
+                for src in ([-1], [1]):
+                    if src == [1] and L - skip > 80:
+                        continue
+                    jid += 1
+                    c = dict(base_late, src=src)
+                    j = {"id": jid, "dec": dec, "in": tp}
+                    j.update(stdinputs.class_fields(c))
+                    j.update(extra)
+                    j["budget_ms"] = 20000
+                    j["maxcalls"] = 4000
+                    meta[jid] = {"input": tp, "origin": "prefix:late-close", "dec": dec, "class": c}
+                    jobs_asan.append(j)
+                    nprefix += 1
+    ctx.log("prefix x late-close jobs: %d over %d decoders" % (nprefix, len(bydec)))
     # hashers: corpus files in partitions
     hfiles = [p for (p, d, e, o) in inputs if o == "corpus" and os.path.getsize(p) < (1 << 20)]
     rng.shuffle(hfiles)
